@@ -300,6 +300,8 @@ func clSnapshotClose(c *Ctx) {
 		c.Check(byOwnResult(e.in), fn, e.in, e.name+" decided by the decrement's own result == 0",
 			"the retire step is not guarded by (AddInt32(&refCount,-1) == 0): deciding on a re-load lets two closers (or none) retire the snapshot")
 	}
+	c.Check(fi.MustFollow(ins, func(x ssa.Instruction) bool { return x == gcCall }), fn, gcCall, "every retirement triggers a collection pass",
+		"a retired snapshot does not always trigger GC(): when the pass that is running misses it (try-lock busy) and no later Close calls GC, the collector never advances again")
 	c.Check(fi.Dominates(del, ins) && fi.Dominates(ins, gcCall), fn, ins, "retire order delete < insert < GC", "the snapshot must leave the live set before it enters the retired set, and the collection must be triggered after that")
 	// the retired object is the receiver itself
 	self := fn.Params[0]
